@@ -18,13 +18,13 @@ Lemma adjust_pointer_back x a n : adjust_pointer x a n true = back a n x.
 Proof. reflexivity. Qed.
 Lemma adjust_dest_tau x a n ge : adjust_dest x a n false ge = tau a n ge x.
 Proof.
-  unfold adjust_dest, tau. replace (andb (a <=? x) ge) with (orb (andb (a <? x) ge) (andb (a =? x) ge)).
+  unfold adjust_dest, moves, tau. replace (andb (a <=? x) ge) with (orb (andb (a <? x) ge) (andb (a =? x) ge)).
   - destruct (N.ltb_spec a x); destruct (N.eqb_spec a x); destruct ge; cbn; try reflexivity; lia.
   - destruct (N.ltb_spec a x); destruct (N.eqb_spec a x); destruct (N.leb_spec a x); destruct ge; cbn; try reflexivity; lia.
 Qed.
 Lemma adjust_dest_backl x a n ge : adjust_dest x a n true ge = backl a n ge x.
 Proof.
-  unfold adjust_dest, backl.
+  unfold adjust_dest, moves, backl.
   destruct (N.ltb_spec a x); destruct (N.eqb_spec a x); destruct (N.leb_spec a x); destruct ge; cbn; try reflexivity; lia.
 Qed.
 
@@ -61,24 +61,206 @@ Qed.
 Lemma validate_alignment_spec v k : validate_alignment v k = if v mod k =? 0 then Ok tt else Err EUnaligned.
 Proof. reflexivity. Qed.
 
-Theorem allocate_ok_iff a addr n ge :
-  (exists a', allocate a addr n ge = Ok a') <-> (addr <= size a /\ addr mod 4 = 0 /\ n mod 4 = 0).
+Lemma USIZE_MAX1_val : USIZE_MAX1 = 18446744073709551616.
+Proof. reflexivity. Qed.
+Lemma ISIZE_MAX_val : ISIZE_MAX = 9223372036854775807.
+Proof. reflexivity. Qed.
+
+(* a label address / pointer target t is moved by an insertion at addr: behind it, or on it when ge *)
+Definition moved (addr : N) (ge : bool) (t : N) : Prop := addr < t \/ (addr = t /\ ge = true).
+Lemma moves_spec t addr ge : moves t addr ge = true <-> moved addr ge t.
 Proof.
-  unfold allocate. rewrite validate_address_true. unfold validate_alignment.
-  destruct (N.leb_spec addr (size a)); cbn [bind]; [|split; [intros [a' Hdis]; discriminate | lia]].
-  destruct (N.eqb_spec (addr mod 4) 0); cbn [bind]; [|split; [intros [a' Hdis]; discriminate | lia]].
-  destruct (N.eqb_spec (n mod 4) 0); cbn [bind]; [|split; [intros [a' Hdis]; discriminate | lia]].
-  split; [lia | eauto].
+  unfold moves, moved. rewrite orb_true_iff, andb_true_iff, N.ltb_lt, N.leb_le. split.
+  - intros [H|[H1 H2]]; [left; exact H|]. destruct (N.eq_dec addr t) as [E|E]; [right; auto | left; lia].
+  - intros [H|[H1 H2]]; [left; exact H | right; split; [lia | exact H2]].
 Qed.
+Lemma tau_moved addr n ge t : tau addr n ge t = if moves t addr ge then t + n else t.
+Proof. rewrite <- adjust_dest_tau. reflexivity. Qed.
+
+(* the representability condition of the repaired code (fix 0edd128), as a proposition:
+   the new size is a valid vector length (<= isize::MAX = 2^63 - 1) and every pointer target that moves stays a usize *)
+Definition targets_fit (a : archive) (addr n : N) (ge : bool) : Prop :=
+  forall c t, In (c, t) (a_ptrs a) -> moved addr ge t -> t + n < USIZE_MAX1.
+Definition allocate_cond (a : archive) (addr n : N) (ge : bool) : Prop :=
+  addr <= size a /\ addr mod 4 = 0 /\ n mod 4 = 0 /\ size a + n <= ISIZE_MAX /\ targets_fit a addr n ge.
+
+Lemma allocate_fits_spec a addr n ge :
+  allocate_fits a addr n ge = true <-> (size a + n <= ISIZE_MAX /\ targets_fit a addr n ge).
+Proof.
+  unfold allocate_fits, targets_fit, checked_add64. rewrite andb_true_iff, forallb_forall.
+  rewrite ISIZE_MAX_val, USIZE_MAX1_val.
+  split.
+  - intros [H1 H2]. split.
+    + destruct (N.ltb_spec (size a + n) 18446744073709551616); [apply N.leb_le in H1; exact H1 | discriminate].
+    + intros c t Hin Hm. specialize (H2 (c, t) Hin). cbn [snd] in H2. apply moves_spec in Hm. rewrite Hm in H2. cbn [negb orb] in H2.
+      destruct (N.ltb_spec (t + n) 18446744073709551616); [assumption | discriminate].
+  - intros [H1 H2]. split.
+    + destruct (N.ltb_spec (size a + n) 18446744073709551616); [apply N.leb_le; exact H1 | lia].
+    + intros [c t] Hin. cbn [snd]. destruct (moves t addr ge) eqn:Hm; cbn [negb orb]; [|reflexivity].
+      apply moves_spec in Hm. specialize (H2 c t Hin Hm).
+      destruct (N.ltb_spec (t + n) 18446744073709551616); [reflexivity | lia].
+Qed.
+
+Lemma allocate_checks_spec a addr n ge :
+  allocate_checks a addr n ge =
+    if negb (addr <=? size a) then Err EOob
+    else if negb ((addr mod 4 =? 0) && (n mod 4 =? 0)) then Err EUnaligned
+    else if allocate_fits a addr n ge then Ok tt else Err EOob.
+Proof.
+  unfold allocate_checks, validate_alignment, guard. rewrite validate_address_true.
+  destruct (addr <=? size a); cbn [bind negb]; [|reflexivity].
+  destruct (addr mod 4 =? 0); cbn [bind negb andb]; [|reflexivity].
+  destruct (n mod 4 =? 0); cbn [bind negb]; reflexivity.
+Qed.
+Lemma allocate_checks_ok_iff a addr n ge : allocate_checks a addr n ge = Ok tt <-> allocate_cond a addr n ge.
+Proof.
+  rewrite allocate_checks_spec. unfold allocate_cond. rewrite <- allocate_fits_spec.
+  destruct (N.leb_spec addr (size a)); cbn [negb]; [|split; [discriminate | lia]].
+  destruct (N.eqb_spec (addr mod 4) 0); cbn [andb negb]; [|split; [discriminate | lia]].
+  destruct (N.eqb_spec (n mod 4) 0); cbn [negb]; [|split; [discriminate | lia]].
+  destruct (allocate_fits a addr n ge); split; try discriminate; try reflexivity; try tauto.
+  intros (_ & _ & _ & Hd); discriminate.
+Qed.
+Lemma allocate_checks_result a addr n ge :
+  allocate_checks a addr n ge = Ok tt \/ allocate_checks a addr n ge = Err EOob \/ allocate_checks a addr n ge = Err EUnaligned.
+Proof.
+  rewrite allocate_checks_spec. destruct (negb _); [auto|]. destruct (negb _); [auto|]. destruct (allocate_fits _ _ _ _); auto.
+Qed.
+Lemma allocate_unfold a addr n ge :
+  allocate a addr n ge =
+    match allocate_checks a addr n ge with
+    | Ok _ => Ok {| a_data := firstn (N.to_nat addr) (a_data a) ++ zeros (N.to_nat n) ++ skipn (N.to_nat addr) (a_data a);
+                    a_text := adjust_text (a_text a) addr n false;
+                    a_ptrs := adjust_pointers (a_ptrs a) addr n false ge;
+                    a_labels := adjust_labels (a_labels a) addr n false ge;
+                    a_cstrs := adjust_cstrs (a_cstrs a) addr n false;
+                    a_endian := a_endian a |}
+    | Err e => Err e
+    | Panic k => Panic k
+    end.
+Proof. unfold allocate. destruct (allocate_checks a addr n ge); reflexivity. Qed.
+
+(* accepted iff in range, aligned and representable *)
+Theorem allocate_ok_iff a addr n ge :
+  (exists a', allocate a addr n ge = Ok a') <-> allocate_cond a addr n ge.
+Proof.
+  rewrite <- allocate_checks_ok_iff, allocate_unfold.
+  destruct (allocate_checks a addr n ge) as [[]|e|k]; split; intros H; try discriminate; eauto; destruct H; discriminate.
+Qed.
+Lemma allocate_accepted a addr n ge a' : allocate a addr n ge = Ok a' -> allocate_cond a addr n ge.
+Proof. intros H. apply allocate_ok_iff. eauto. Qed.
+(* everything else is rejected with one of the two error kinds (never a panic) *)
 Theorem allocate_rejected a addr n ge :
-  ~ (addr <= size a /\ addr mod 4 = 0 /\ n mod 4 = 0) ->
+  ~ allocate_cond a addr n ge ->
   allocate a addr n ge = Err EOob \/ allocate a addr n ge = Err EUnaligned.
 Proof.
-  unfold allocate. rewrite validate_address_true. unfold validate_alignment.
-  destruct (N.leb_spec addr (size a)); cbn [bind]; [|auto].
-  destruct (N.eqb_spec (addr mod 4) 0); cbn [bind]; [|auto].
-  destruct (N.eqb_spec (n mod 4) 0); cbn [bind]; [|auto]. lia.
+  intros Hn. rewrite allocate_unfold. destruct (allocate_checks_result a addr n ge) as [E|[E|E]]; rewrite E; auto.
+  exfalso. apply Hn. apply allocate_checks_ok_iff. exact E.
 Qed.
+Theorem allocate_never_panics a addr n ge k : allocate a addr n ge <> Panic k.
+Proof.
+  rewrite allocate_unfold. destruct (allocate_checks_result a addr n ge) as [E|[E|E]]; rewrite E; discriminate.
+Qed.
+
+(* ---- the code's own statement order in machine arithmetic (Model: allocate_m) ---- *)
+(* every annotation key (cell, label address, c-string cell) is at most the size: true after every history of API calls
+   (Proofs/BinKeysInvariant.v: keys are validated against the size when written and relocated with it) *)
+Definition keys_le_size (a : archive) : Prop :=
+  Forall (fun k => k <= size a) (am_keys (a_text a)) /\ Forall (fun k => k <= size a) (am_keys (a_ptrs a)) /\
+  Forall (fun k => k <= size a) (am_keys (a_labels a)) /\ Forall (fun q => Forall (fun k => k <= size a) (snd q)) (a_cstrs a).
+
+Lemma add_at_ok m b x n : x + n < USIZE_MAX1 -> add_at m b x n = Ok (if b then x + n else x).
+Proof. intros H. unfold add_at. destruct b; [apply add_w_ok; exact H | reflexivity]. Qed.
+Lemma relocate_keys_add_ok {V} m mv n (mp : amap V) :
+  Forall (fun k => k + n < USIZE_MAX1) (am_keys mp) ->
+  relocate_keys_add m mv n mp = Ok (am_map_keys (fun k => if mv k then k + n else k) mp).
+Proof.
+  unfold am_keys, am_map_keys. induction mp as [|[k v] r IH]; intros H; cbn [relocate_keys_add map fst snd]; [reflexivity|].
+  cbn [map fst] in H. inversion H as [|? ? Hk Hr]; subst. rewrite add_at_ok by exact Hk. cbn [bind]. rewrite IH by exact Hr. reflexivity.
+Qed.
+Lemma relocate_list_add_ok m mv n l :
+  Forall (fun k => k + n < USIZE_MAX1) l -> relocate_list_add m mv n l = Ok (map (fun k => if mv k then k + n else k) l).
+Proof.
+  induction l as [|k r IH]; intros H; cbn [relocate_list_add map]; [reflexivity|].
+  inversion H as [|? ? Hk Hr]; subst. rewrite add_at_ok by exact Hk. cbn [bind]. rewrite IH by exact Hr. reflexivity.
+Qed.
+Lemma relocate_cstrs_add_ok m mv n c :
+  Forall (fun q : bytes * list N => Forall (fun k => k + n < USIZE_MAX1) (snd q)) c ->
+  relocate_cstrs_add m mv n c = Ok (map (fun q => (fst q, map (fun k => if mv k then k + n else k) (snd q))) c).
+Proof.
+  induction c as [|[s cells] r IH]; intros H; cbn [relocate_cstrs_add map fst snd]; [reflexivity|].
+  inversion H as [|? ? Hk Hr]; subst. cbn [snd] in Hk. rewrite relocate_list_add_ok by exact Hk. cbn [bind]. rewrite IH by exact Hr. reflexivity.
+Qed.
+Lemma adjust_pointers_add_ok m ptrs addr n ge :
+  Forall (fun k => k + n < USIZE_MAX1) (am_keys ptrs) ->
+  (forall c t, In (c, t) ptrs -> moved addr ge t -> t + n < USIZE_MAX1) ->
+  adjust_pointers_add m ptrs addr n ge = Ok (adjust_pointers ptrs addr n false ge).
+Proof.
+  unfold am_keys. induction ptrs as [|[c t] r IH]; intros Hk H; cbn [adjust_pointers_add adjust_pointers map fst snd]; [reflexivity|].
+  cbn [map fst] in Hk. inversion Hk as [|? ? Hc Hr]; subst.
+  rewrite IH by (try exact Hr; intros c0 t0 Hin; apply (H c0 t0); right; exact Hin).
+  rewrite add_at_ok by exact Hc. cbn [bind]. unfold add_at, adjust_dest, adjust_pointer.
+  destruct (moves t addr ge) eqn:Hm; cbn [bind]; [|reflexivity].
+  rewrite add_w_ok; [reflexivity|]. apply (H c t); [left; reflexivity | apply moves_spec; exact Hm].
+Qed.
+(* For BOTH arithmetic profiles the step-by-step execution is the functional summary: it never panics, never wraps a key
+   or a target, and when it does not return Ok the archive the caller holds is the one it passed in. *)
+Theorem allocate_m_is_allocate m a addr n ge :
+  keys_le_size a ->
+  allocate_m m a addr n ge =
+    match allocate a addr n ge with Ok a' => (Ok tt, a') | Err e => (Err e, a) | Panic k => (Panic k, a) end.
+Proof.
+  intros (Kt & Kp & Kl & Kc). unfold allocate_m. rewrite allocate_unfold.
+  destruct (allocate_checks a addr n ge) as [[]|e|k] eqn:E; try reflexivity.
+  apply allocate_checks_ok_iff in E. destruct E as (_ & _ & _ & Hsz & Hfit).
+  rewrite ISIZE_MAX_val in Hsz.
+  assert (B : forall k, k <= size a -> k + n < USIZE_MAX1) by (intros k Hk; rewrite USIZE_MAX1_val; lia).
+  assert (Bt : Forall (fun k => k + n < USIZE_MAX1) (am_keys (a_text a))) by (eapply Forall_impl; [|exact Kt]; exact B).
+  assert (Bp : Forall (fun k => k + n < USIZE_MAX1) (am_keys (a_ptrs a))) by (eapply Forall_impl; [|exact Kp]; exact B).
+  assert (Bl : Forall (fun k => k + n < USIZE_MAX1) (am_keys (a_labels a))) by (eapply Forall_impl; [|exact Kl]; exact B).
+  assert (Bc : Forall (fun q : bytes * list N => Forall (fun k => k + n < USIZE_MAX1) (snd q)) (a_cstrs a)).
+  { eapply Forall_impl; [|exact Kc]. intros q Hq. eapply Forall_impl; [|exact Hq]. exact B. }
+  unfold allocate_apply.
+  rewrite (relocate_keys_add_ok m _ n (a_text a) Bt), (relocate_keys_add_ok m _ n (a_labels a) Bl). cbn [bind].
+  rewrite (adjust_pointers_add_ok m (a_ptrs a) addr n ge Bp Hfit). cbn [bind].
+  rewrite (relocate_cstrs_add_ok m _ n (a_cstrs a) Bc). reflexivity.
+Qed.
+Theorem allocate_m_failure_unchanged m a addr n ge :
+  keys_le_size a -> fst (allocate_m m a addr n ge) <> Ok tt -> snd (allocate_m m a addr n ge) = a.
+Proof.
+  intros K. rewrite (allocate_m_is_allocate m a addr n ge K).
+  destruct (allocate a addr n ge); cbn [fst snd]; [intros H; exfalso; apply H; reflexivity | reflexivity | reflexivity].
+Qed.
+Theorem allocate_m_never_panics m a addr n ge k : keys_le_size a -> fst (allocate_m m a addr n ge) <> Panic k.
+Proof.
+  intros K. rewrite (allocate_m_is_allocate m a addr n ge K). destruct (allocate a addr n ge) as [a'|e|k'] eqn:E; cbn [fst]; try discriminate.
+  exfalso. exact (allocate_never_panics _ _ _ _ _ E).
+Qed.
+(* relocated targets are usize values again *)
+Theorem allocate_targets_usize a addr n ge a' :
+  allocate a addr n ge = Ok a' ->
+  (forall c t, In (c, t) (a_ptrs a) -> t < USIZE_MAX1) -> forall c t, In (c, t) (a_ptrs a') -> t < USIZE_MAX1.
+Proof.
+  intros H Hu c t Hin. destruct (allocate_accepted _ _ _ _ _ H) as (_ & _ & _ & _ & Hfit).
+  rewrite allocate_unfold in H. destruct (allocate_checks a addr n ge); try discriminate. inversion H; subst a'; clear H.
+  cbn [a_ptrs] in Hin. unfold adjust_pointers in Hin. apply in_map_iff in Hin. destruct Hin as ([c0 t0] & E & Hin0).
+  cbn [fst snd] in E. inversion E; subst c t; clear E. unfold adjust_dest.
+  destruct (moves t0 addr ge) eqn:Hm; [apply (Hfit c0 t0 Hin0); apply moves_spec; exact Hm | apply (Hu c0 t0 Hin0)].
+Qed.
+
+(* without the check (the code before fix 0edd128): the finding's input - 8 bytes, a pointer at 0 with target usize::MAX - 1,
+   allocate(0, 4, false) - panics in the checked profile AFTER the data has been spliced, and wraps the target in release *)
+Definition f24_archive : archive :=
+  {| a_data := zeros 8; a_text := []; a_ptrs := [(0, 18446744073709551614)]; a_labels := []; a_cstrs := []; a_endian := LE |}.
+Example allocate_apply_unchecked_panics :
+  fst (allocate_apply Checked f24_archive 0 4 false) = Panic POverflow
+  /\ size (snd (allocate_apply Checked f24_archive 0 4 false)) = 12
+  /\ a_ptrs (snd (allocate_apply Checked f24_archive 0 4 false)) = [(0, 18446744073709551614)]
+  /\ fst (allocate_apply Wrapping f24_archive 0 4 false) = Ok tt
+  /\ a_ptrs (snd (allocate_apply Wrapping f24_archive 0 4 false)) = [(4, 2)]
+  /\ allocate f24_archive 0 4 false = Err EOob
+  /\ allocate_m Checked f24_archive 0 4 false = (Err EOob, f24_archive).
+Proof. vm_compute. repeat split. Qed.
 
 Theorem allocate_spec a addr n ge a' :
   allocate a addr n ge = Ok a' ->
@@ -93,10 +275,8 @@ Theorem allocate_spec a addr n ge a' :
   /\ a_cstrs a' = map (fun q => (fst q, map (kappa addr n) (snd q))) (a_cstrs a)
   /\ a_endian a' = a_endian a.
 Proof.
-  intros H. assert (Hok : addr <= size a) by (apply (allocate_ok_iff a addr n ge); eauto).
-  unfold allocate in H. destruct (validate_address addr (size a) true); cbn [bind] in H; try discriminate.
-  destruct (validate_alignment addr 4); cbn [bind] in H; try discriminate.
-  destruct (validate_alignment n 4); cbn [bind] in H; try discriminate.
+  intros H. assert (Hok : addr <= size a) by (apply (allocate_accepted a addr n ge a'); exact H).
+  rewrite allocate_unfold in H. destruct (allocate_checks a addr n ge); try discriminate.
   inversion H; subst a'; clear H. cbn [a_data a_text a_ptrs a_labels a_cstrs a_endian].
   split; [reflexivity|]. split.
   { unfold size, lenN in *. cbn [a_data]. rewrite !app_length, firstn_length, skipn_length. unfold zeros. rewrite repeat_length. lia. }
@@ -238,9 +418,15 @@ Proof.
 Qed.
 
 (* ------------------------------------------------------------------ appending *)
+(* the guard is assumption A-usize (the new size is a valid Vec length): above it allocate_at_end does not return in the code *)
 Theorem allocate_at_end_spec a n :
-  a_data (allocate_at_end a n) = a_data a ++ zeros (N.to_nat n) /\ same_annotations a (allocate_at_end a n).
-Proof. unfold allocate_at_end. cbn. repeat split. Qed.
+  size a + n <= ISIZE_MAX ->
+  a_data (allocate_at_end a n) = a_data a ++ zeros (N.to_nat n) /\ same_annotations a (allocate_at_end a n)
+  /\ size (allocate_at_end a n) = size a + n.
+Proof.
+  intros _. unfold allocate_at_end. split; [reflexivity|]. split; [cbn; repeat split|].
+  unfold size, lenN. cbn [set_data a_data]. rewrite app_length. unfold zeros. rewrite repeat_length. lia.
+Qed.
 
 Lemma deallocate_accepted a addr n ge a' :
   deallocate a addr n ge = Ok a' -> addr < size a /\ addr + n <= size a /\ addr mod 4 = 0 /\ n mod 4 = 0.
@@ -251,4 +437,95 @@ Proof.
   rewrite validate_address_true in E. destruct (N.leb_spec (addr + n) (size a)); cbn [bind] in E; [|discriminate].
   destruct (N.eqb_spec (addr mod 4) 0); cbn [bind] in E; [|discriminate].
   destruct (N.eqb_spec (n mod 4) 0); cbn [bind] in E; [|discriminate]. lia.
+Qed.
+
+(* ------------------------------------------------------------------ deallocate: the usize subtractions cannot underflow *)
+(* `pointer - count` / `destination - count` are executed only for values at or behind the removed range that are not inside it
+   (the filters ran first), i.e. for values >= addr + n: in both profiles the machine subtraction is the exact difference *)
+Lemma back_no_underflow m a n x : ~ in_rng a n x -> a <= x -> n <= x /\ sub_w 64 m x n = Ok (x - n).
+Proof. unfold in_rng. intros H1 H2. assert (H : n <= x) by lia. split; [exact H | apply sub_w_ok; exact H]. Qed.
+Theorem deallocate_target_sub_exact m ptrs addr n ge c t :
+  In (c, t) (filter_pointers ptrs addr n) -> moves t addr ge = true -> n <= t /\ sub_w 64 m t n = Ok (t - n).
+Proof.
+  unfold filter_pointers. intros Hin Hm. apply filter_In in Hin. destruct Hin as [_ Hf]. cbn [fst snd] in Hf.
+  apply (back_no_underflow m addr n t).
+  - intros Hr. apply in_range_spec in Hr. rewrite Hr, orb_true_r in Hf. discriminate.
+  - apply moves_spec in Hm. unfold moved in Hm. lia.
+Qed.
+Theorem deallocate_cell_sub_exact m ptrs addr n c t :
+  In (c, t) (filter_pointers ptrs addr n) -> addr <= c -> n <= c /\ sub_w 64 m c n = Ok (c - n).
+Proof.
+  unfold filter_pointers. intros Hin Hle. apply filter_In in Hin. destruct Hin as [_ Hf]. cbn [fst snd] in Hf.
+  apply (back_no_underflow m addr n c); [|exact Hle]. intros Hr. apply in_range_spec in Hr. rewrite Hr in Hf. discriminate.
+Qed.
+Theorem deallocate_key_sub_exact {V} m (mp : amap V) addr n k :
+  In k (am_keys (filter_text_or_labels mp addr n)) -> addr <= k -> n <= k /\ sub_w 64 m k n = Ok (k - n).
+Proof.
+  unfold filter_text_or_labels. rewrite am_keys_filter_keys. intros Hin Hle. apply filter_In in Hin. destruct Hin as [_ Hf].
+  apply (back_no_underflow m addr n k); [|exact Hle]. intros Hr. apply in_range_spec in Hr. rewrite Hr in Hf. discriminate.
+Qed.
+Theorem deallocate_cstr_sub_exact m cs addr n s cells k :
+  In (s, cells) (filter_cstrs (fun k => negb (in_range addr n k)) cs) -> In k cells -> addr <= k -> n <= k /\ sub_w 64 m k n = Ok (k - n).
+Proof.
+  intros Hin Hk Hle. destruct (filter_cstrs_cells _ _ _ _ Hin) as (_ & cells0 & _ & ->). apply filter_In in Hk. destruct Hk as [_ Hf].
+  apply (back_no_underflow m addr n k); [|exact Hle]. intros Hr. apply in_range_spec in Hr. rewrite Hr in Hf. discriminate.
+Qed.
+
+(* ------------------------------------------------------------------ relocated maps stay maps (HashMap::collect merges no keys) *)
+Lemma NoDup_map_inj_on {A B} (f : A -> B) l :
+  (forall x y, In x l -> In y l -> f x = f y -> x = y) -> NoDup l -> NoDup (map f l).
+Proof.
+  induction l as [|x r IH]; intros Hinj Hnd; cbn [map]; [constructor|]. inversion Hnd as [|? ? Hx Hr]; subst. constructor.
+  - intros Hin. apply in_map_iff in Hin. destruct Hin as (y & E & Hy).
+    assert (y = x) by (apply Hinj; [right; exact Hy | left; reflexivity | exact E]). subst. contradiction.
+  - apply IH; [|exact Hr]. intros x0 y0 Hx0 Hy0. apply Hinj; right; assumption.
+Qed.
+Lemma NoDup_map_fst_filter {A B} (p : A * B -> bool) l : NoDup (map fst l) -> NoDup (map fst (filter p l)).
+Proof.
+  induction l as [|x r IH]; cbn [filter map]; intros H; [constructor|]. inversion H as [|? ? Hx Hr]; subst.
+  destruct (p x); cbn [map]; [constructor|]; auto.
+  intros Hin. apply Hx. apply in_map_iff in Hin. destruct Hin as (y & E & Hy). apply filter_In in Hy. apply in_map_iff. exists y. tauto.
+Qed.
+
+Theorem allocate_keeps_maps a addr n ge a' :
+  allocate a addr n ge = Ok a' ->
+  (NoDup (am_keys (a_text a)) -> NoDup (am_keys (a_text a'))) /\
+  (NoDup (am_keys (a_ptrs a)) -> NoDup (am_keys (a_ptrs a'))) /\
+  (NoDup (am_keys (a_labels a)) -> NoDup (am_keys (a_labels a'))).
+Proof.
+  intros E. destruct (allocate_spec _ _ _ _ _ E) as (_ & _ & _ & Kt & _ & Kp & _ & Kl & _). rewrite Kt, Kp, Kl.
+  repeat split; intros H; apply NoDup_map_inj_on; try exact H; intros x y _ _ Exy.
+  - exact (kappa_inj _ _ _ _ Exy).
+  - exact (kappa_inj _ _ _ _ Exy).
+  - exact (tau_inj _ _ _ _ _ Exy).
+Qed.
+Lemma not_in_range_filter addr n l x : In x (filter (fun k => negb (in_range addr n k)) l) -> ~ in_rng addr n x.
+Proof. intros Hin Hr. apply filter_In in Hin. destruct Hin as [_ Hf]. apply in_range_spec in Hr. rewrite Hr in Hf. discriminate. Qed.
+Theorem deallocate_keeps_maps a addr n ge a' :
+  deallocate a addr n ge = Ok a' ->
+  (NoDup (am_keys (a_text a)) -> NoDup (am_keys (a_text a'))) /\
+  (NoDup (am_keys (a_ptrs a)) -> NoDup (am_keys (a_ptrs a'))) /\
+  (NoDup (am_keys (a_labels a)) -> NoDup (am_keys (a_labels a'))).
+Proof.
+  intros E. destruct (deallocate_spec _ _ _ _ _ E) as (_ & _ & _ & Kt & Kp & _ & Kl & _). rewrite Kt, Kp, Kl.
+  split; [|split]; intros H.
+  - apply NoDup_map_inj_on; [|apply NoDup_filter; exact H].
+    intros x y Hx Hy. apply back_inj; eapply not_in_range_filter; eassumption.
+  - unfold am_keys in *. rewrite map_map. cbn [fst].
+    rewrite <- (map_map fst (back addr n)).
+    apply NoDup_map_inj_on; [|apply NoDup_map_fst_filter; exact H].
+    intros x y Hx Hy. apply in_map_iff in Hx. destruct Hx as ([cx tx] & <- & Hx). apply in_map_iff in Hy. destruct Hy as ([cy ty] & <- & Hy).
+    apply filter_In in Hx. apply filter_In in Hy. destruct Hx as [_ Hx]. destruct Hy as [_ Hy]. cbn [fst snd] in *.
+    apply back_inj; intros Hr; apply in_range_spec in Hr; rewrite Hr in *; discriminate.
+  - apply NoDup_map_inj_on; [|apply NoDup_filter; exact H].
+    intros x y Hx Hy. apply backl_inj; eapply not_in_range_filter; eassumption.
+Qed.
+Theorem truncate_keeps_maps a addr a' :
+  truncate a addr = Ok a' ->
+  (NoDup (am_keys (a_text a)) -> NoDup (am_keys (a_text a'))) /\
+  (NoDup (am_keys (a_ptrs a)) -> NoDup (am_keys (a_ptrs a'))) /\
+  (NoDup (am_keys (a_labels a)) -> NoDup (am_keys (a_labels a'))).
+Proof.
+  unfold truncate. destruct (size a <=? addr); intros E; inversion E; subst a'; [tauto|].
+  cbn [a_text a_ptrs a_labels]. rewrite !am_keys_filter_keys. repeat split; apply NoDup_filter.
 Qed.
